@@ -31,8 +31,14 @@ try:
     res["suite_runs_passed_with_change"] = passes
     assert passes == 3, "suite fails with the change: " + out[-1500:]
     shutil.copy(demo, demo_dst)
-    runcmd = meta["demo_run"]
-    if "timeout" not in runcmd: runcmd = runcmd.replace("go test", "go test -timeout 120s")
+    # normalise the writer's command: only the test selection, tags and -race are taken from it
+    import re
+    orig = meta["demo_run"]
+    mrun = re.search(r"-run[ =]+('[^']+'|\"[^\"]+\"|\S+)", orig)
+    mtags = re.search(r"-tags[ =]+(\S+)", orig)
+    runcmd = "go test -mod=mod -vet=off -count=1 -timeout 300s%s%s -run %s ." % (
+        " -race" if " -race" in orig else "", " -tags " + mtags.group(1) if mtags else "", mrun.group(1) if mrun else "ZZDemo")
+    meta["demo_run_normalised"] = runcmd
     f = 0
     for i in range(3):
         rc, out = run("cd %s && %s 2>&1 | grep -v '^{' | tail -15" % (demo_dir, runcmd))
